@@ -161,6 +161,19 @@ theorem C14_recursive :
     (List.range 7).map C14_result = [some 0, some 0, some 0, some 0, some 9, some 9, some 9] := by
   decide +kernel
 
+/-! ### a name used as the `schema` of a list field (F33, F33b) -/
+
+/-- a name of the rules-set registry is left to the child validator, in normalization as in validation -/
+theorem C14_sequence_schema_rules_set (env : Env) (name : String) (d : Val) (h : env.rulesSets name = some d) :
+    N.seqConstraint env (.str name) = .str name := by
+  simp [N.seqConstraint, h]
+
+/-- a name of the schema registry only: the items are normalized against the definition, like the inline schema -/
+theorem C14_sequence_schema_reference (env : Env) (name : String) (d : Val)
+    (hr : env.rulesSets name = none) (hs : env.schemas name = some d) :
+    N.seqConstraint env (.str name) = d := by
+  simp [N.seqConstraint, hr, hs]
+
 /-! ### the fuel is only a termination device -/
 
 /-- **an answer does not depend on the fuel**: whatever the registries hold (self-referential or not), if
@@ -266,6 +279,10 @@ def C14_regs (n : String) : Option Val :=
   else if n == "selfof" then
     some (.dict [(.s "anyof", .seq false [.dict [(.s "type", .str "integer")],
                    .dict [(.s "type", .str "dict"), (.s "schema", .dict [(.s "y", .str "selfof")])]])])
+  else if n == "bintree" then
+    some (.dict [(.s "type", .str "dict"),
+                 (.s "schema", .dict [(.s "value", .dict [(.s "type", .str "integer")]),
+                                      (.s "left", .str "bintree"), (.s "right", .str "bintree")])])
   else if n == "broken" then
     some (.dict [(.s "type", .str "dict"),
                  (.s "schema", .dict [(.s "x", .str "broken"), (.s "z", .dict [(.s "no_such_rule", .int 1)])])])
@@ -284,6 +301,7 @@ theorem C14_self_reference_accepted :
     C14_accepts [(.s "a", .str "selfmap")] = true ∧
     C14_accepts [(.s "a", .str "selflist"), (.s "b", .str "selfof")] = true ∧
     C14_accepts [(.s "a", .dict [(.s "type", .str "dict"), (.s "schema", .dict [(.s "b", .str "selfmap")])])] = true ∧
+    C14_accepts [(.s "root", .str "bintree")] = true ∧
     C14_accepts [(.s "a", .str "broken")] = false ∧
     C14_accepts [(.s "a", .dict [(.s "type", .str "dict"), (.s "schema", .dict [(.s "b", .str "broken")])])] = false := by
   decide +kernel
